@@ -61,12 +61,16 @@ type appCase struct {
 	TolMs         uint `json:"eof_tolerance_ms,omitempty"`
 	PauseAtByte   int  `json:"source_silent_before_byte,omitempty"`
 	PauseMs       int  `json:"source_silent_ms,omitempty"`
+	EmptyRun      int  `json:"empty_reads_in_a_row,omitempty"`
+	EmptyRunAt    int  `json:"empty_run_at_offset,omitempty"`
 	// the source falls silent for SilenceMs after this many chunks have been written
 	SilenceAfterChunks int `json:"silence_after_chunks,omitempty"`
 	SilenceMs          int `json:"silence_ms,omitempty"`
 	// the pipe the program inherits as its standard input is in non-blocking mode (as
 	// when it is started by another Go program or by a supervisor that uses one)
 	StdinNonblock bool `json:"stdin_nonblocking,omitempty"`
+	// process level: the first write to the pipe has this many bytes, and a pause follows
+	FirstChunk int `json:"first_chunk,omitempty"`
 }
 
 type appObs struct {
@@ -332,6 +336,11 @@ func runAppProcess(c *child.Ctx, bin string, args []string, stdin []byte, k appC
 		go func() {
 			r := ref.NewRand(uint64(k.ID)*131 + 7)
 			data := stdin
+			if k.FirstChunk > 0 && k.FirstChunk < len(data) {
+				inW.Write(data[:k.FirstChunk])
+				data = data[k.FirstChunk:]
+				time.Sleep(30 * time.Millisecond) // the program reads these bytes on their own
+			}
 			for nchunks := 0; len(data) > 0; nchunks++ {
 				if k.SilenceMs > 0 && nchunks == k.SilenceAfterChunks && nchunks > 0 {
 					res.InBeforeSilence = len(stdin) - len(data)
@@ -854,6 +863,21 @@ func monC11(c *child.Ctx, replay json.RawMessage) {
 				if app == "rtcmfilter" {
 					k.WriterMode = "block" // no headings: the only Write is the one that blocks
 				}
+			} else if i == 5 && c.Batch < 2 || c.Thorough() && i%400 == 5 {
+				// one early write is held up for a second and a half while hundreds of
+				// messages arrive behind it: all of them are written before the call returns
+				var many []byte
+				for j := r.Range(300, 500); j > 0; j-- {
+					f := gen.RandFrame(r)
+					for len(f.Bytes) > 40 {
+						f = gen.RandFrame(r)
+					}
+					many = append(many, f.Bytes...)
+				}
+				k.Input = hexs(many)
+				k.Chunk, k.ReaderUs, k.Display, k.Record, k.TolMs = 0, 0, false, false, 0
+				k.WriterMode, k.WriterUs = "stallonce", r.Range(1200000, 1800000)
+				c.Count("cases_with_hundreds_of_messages_behind_a_held_up_write", 1)
 			} else if i%40 == 7 {
 				// "however slow the writer is": a writer that blocks a quarter of a second or
 				// more on every call, with a handful of messages
@@ -1066,6 +1090,10 @@ func monC10(c *child.Ctx, replay json.RawMessage) {
 			k.EmptyPermille = []int{30, 300}[r.Intn(2)]
 			c.Count("cases_with_empty_reads", 1)
 		}
+		if i%10 == 8 && len(in) > 2 {
+			k.EmptyRun, k.EmptyRunAt = []int{99, 100, 101, 250, 1000}[r.Intn(5)], r.Range(0, len(in)-1)
+			c.Count("cases_with_many_empty_reads_in_a_row", 1)
+		}
 		k.Closer = i%4 == 2
 		if i == 5 || (c.Thorough() && i%200 == 5) {
 			// a live session: a second or more of small frames arriving one by one while
@@ -1095,11 +1123,11 @@ func monC10(c *child.Ctx, replay json.RawMessage) {
 			// one write is held up for seconds while further frames are waiting: nothing
 			// may be given up on
 			var in2, fr2 []byte
-			for j := r.Range(8, 20); j > 0; j-- {
+			for j := r.Range(300, 500); j > 0; j-- { // hundreds of frames arrive behind the held-up write
 				var f gen.Seg
 				for {
 					f = gen.RandFrame(r)
-					if len(f.Bytes) <= 60 {
+					if len(f.Bytes) <= 40 {
 						break
 					}
 				}
